@@ -39,6 +39,52 @@ def local_defs(body, l):
     return out
 
 
+
+def precedence(ctx, rule='P4'):
+    fx = ctx.fx
+    # ---------- P4 precedence
+    pf = ctx.anchor('asefile::parse::parse_frame')
+    if pf is not None:
+        import C10 as _c10
+        E = effects.get(fx)
+        pi_idx = [i for i in range(1, pf.arg_count + 1) if pf.locals[i]['ty'].replace(' ', '') == '&mutparse::ParseInfo']
+        sws = [s for s in q.switches_on(pf, lambda d: d[0] == 'discr') if 'OldPalette04' in _c10.switch_variants(pf, s).values()]
+        if len(sws) == 1 and pi_idx:
+            sw = sws[0]
+            names = _c10.switch_variants(pf, sw)
+            tm = pf.blocks[sw]['term']
+            total = 0
+            for v, s in tm['targets']:
+                kind = names.get(v)
+                reg = q.edge_region(pf, sw, s)
+                ws = [w for w in E.writes(pf, blocks=reg) if effects.root_of(w[0]) == (pi_idx[0], ['palette'])]
+                total += len(ws)
+                if kind == 'Palette':
+                    ok = len(ws) == 1 and not [g for g in q.guards(pf, ws[0][3][1]) if g[2] in reg and g[0][0] != 'discr']
+                    val = ws[0][1] if ws else None
+                    okv = val is not None and any(x[0] == 'call' and x[1] == PAL + 'parse_chunk' for x in walk(val))
+                    ctx.inst(rule, 'Palette', ok and okv, 'Palette chunk assigns parse_info.palette %s = %s'
+                             % ('unconditionally' if ok else 'CONDITIONALLY or not at all', show(val)[:80] if val else None),
+                             pf.blocks[s]['term'].get('span'), key=pf.name + '|' + rule + '|Palette')
+                elif kind in ('OldPalette04', 'OldPalette11'):
+                    dec = PAL + ('parse_old_chunk_04' if kind.endswith('04') else 'parse_old_chunk_11')
+                    ok = len(ws) == 1
+                    guarded = False
+                    if ok:
+                        for cond, vals, a in q.guards(pf, ws[0][3][1]):
+                            if a in reg and cond[0] == 'call' and cond[1] == 'std::option::Option::is_none' \
+                                    and effects.root_of(cond[2][0]) == (pi_idx[0], ['palette']) and q.bool_outcome(pf, a, vals) is True:
+                                guarded = True
+                        okv = any(x[0] == 'call' and x[1] == dec for x in walk(ws[0][1]))
+                    ctx.inst(rule, kind, ok and guarded and okv, '%s chunk assigns parse_info.palette %s' % (
+                        kind, 'only under palette.is_none()' if guarded else 'WITHOUT the palette.is_none() guard'),
+                        pf.blocks[s]['term'].get('span'), key='%s|%s|%s' % (pf.name, rule, kind))
+                else:
+                    ctx.inst(rule, str(kind), not ws, '%s chunk %s parse_info.palette' % (kind, 'does not write' if not ws else 'WRITES'),
+                             pf.blocks[s]['term'].get('span'), key='%s|%s|%s' % (pf.name, rule, kind), nontrivial=False)
+            ctx.floor('palette writers', total, 3)
+
+
 def run(ctx):
     fx = ctx.fx
     spec = SP.load_spec()
@@ -189,47 +235,7 @@ def run(ctx):
         ctx.floor('6-bit range tests', n, 1)
         ctx.note('scale_6bit_to_8bit result origin (recorded, not asserted): %s' % show(res(sc).ok_ret()))
 
-    # ---------- P4 precedence
-    pf = ctx.anchor('asefile::parse::parse_frame')
-    if pf is not None:
-        import C10 as _c10
-        E = effects.get(fx)
-        pi_idx = [i for i in range(1, pf.arg_count + 1) if pf.locals[i]['ty'].replace(' ', '') == '&mutparse::ParseInfo']
-        sws = [s for s in q.switches_on(pf, lambda d: d[0] == 'discr') if 'OldPalette04' in _c10.switch_variants(pf, s).values()]
-        if len(sws) == 1 and pi_idx:
-            sw = sws[0]
-            names = _c10.switch_variants(pf, sw)
-            tm = pf.blocks[sw]['term']
-            total = 0
-            for v, s in tm['targets']:
-                kind = names.get(v)
-                reg = q.edge_region(pf, sw, s)
-                ws = [w for w in E.writes(pf, blocks=reg) if effects.root_of(w[0]) == (pi_idx[0], ['palette'])]
-                total += len(ws)
-                if kind == 'Palette':
-                    ok = len(ws) == 1 and not [g for g in q.guards(pf, ws[0][3][1]) if g[2] in reg and g[0][0] != 'discr']
-                    val = ws[0][1] if ws else None
-                    okv = val is not None and any(x[0] == 'call' and x[1] == PAL + 'parse_chunk' for x in walk(val))
-                    ctx.inst('P4', 'Palette', ok and okv, 'Palette chunk assigns parse_info.palette %s = %s'
-                             % ('unconditionally' if ok else 'CONDITIONALLY or not at all', show(val)[:80] if val else None),
-                             pf.blocks[s]['term'].get('span'), key=pf.name + '|P4|Palette')
-                elif kind in ('OldPalette04', 'OldPalette11'):
-                    dec = PAL + ('parse_old_chunk_04' if kind.endswith('04') else 'parse_old_chunk_11')
-                    ok = len(ws) == 1
-                    guarded = False
-                    if ok:
-                        for cond, vals, a in q.guards(pf, ws[0][3][1]):
-                            if a in reg and cond[0] == 'call' and cond[1] == 'std::option::Option::is_none' \
-                                    and effects.root_of(cond[2][0]) == (pi_idx[0], ['palette']) and q.bool_outcome(pf, a, vals) is True:
-                                guarded = True
-                        okv = any(x[0] == 'call' and x[1] == dec for x in walk(ws[0][1]))
-                    ctx.inst('P4', kind, ok and guarded and okv, '%s chunk assigns parse_info.palette %s' % (
-                        kind, 'only under palette.is_none()' if guarded else 'WITHOUT the palette.is_none() guard'),
-                        pf.blocks[s]['term'].get('span'), key='%s|P4|%s' % (pf.name, kind))
-                else:
-                    ctx.inst('P4', str(kind), not ws, '%s chunk %s parse_info.palette' % (kind, 'does not write' if not ws else 'WRITES'),
-                             pf.blocks[s]['term'].get('span'), key='%s|P4|%s' % (pf.name, kind), nontrivial=False)
-            ctx.floor('palette writers', total, 3)
+    precedence(ctx)
     # palette reaches the file unchanged
     pv = ctx.anchor('asefile::parse::ParseInfo::validate')
     if pv is not None:
